@@ -1,6 +1,7 @@
 // E2 harness for C19: suspend / resume of pools and processing units on the live runtime.
 // usage: e2_elastic <seed> <perturb_per_1024> <prog> <size> <wthreads> <policy> <elastic 0|1> [pika options...]
 //   prog: pu      - random suspend/resume of single PUs of an elastic pool (one PU is never suspended)
+//         yieldpoll - a yield()-polling task on the PU being suspended (flag raised after the suspend call returned)
 //         strand  - submitters hinted to worker k held between select_active_pu and the enqueue while k is suspended
 //         race    - suspend of a PU answered by a resume the moment the PU reads `sleeping`, worker held in the
 //                   store(sleeping)/wait window (directed schedule for the lost-notify window)
@@ -558,6 +559,67 @@ static int prog_strand(rng& r, int size)
     for (int w = 0; w < g_n; ++w) submit(r.next(), 1);
     return wait_until(all_done);
 }
+// a task that polls a flag with this_thread::yield() lives on the PU that is being suspended; the flag is raised only after
+// suspend_processing_unit has returned.  The yielded task must be taken over by another PU (or the suspension must complete
+// otherwise) - the call has to return.  Count-based verdict: if the poller has yielded g_poll_limit times and the call has still
+// not returned, nothing will ever change (each yield gives the scheduler the chance it needs).
+static long const g_poll_limit = 100000;
+static int prog_yieldpoll(rng& r, int size)
+{
+    int keep = int(r.below(std::uint32_t(g_n)));
+    int rc = 0;
+    for (int c = 0; c < 2 + size / 3 && rc == 0; ++c)
+    {
+        int w = int(r.below(std::uint32_t(g_n)));
+        if (w == keep) w = (w + 1) % g_n;
+        auto flag = std::make_shared<std::atomic<bool>>(false);
+        auto started = std::make_shared<std::atomic<bool>>(false);
+        auto gaveup = std::make_shared<std::atomic<bool>>(false);
+        long id = new_task_id();
+        auto s = ex::with_hint(ex::thread_pool_scheduler{g_wp}, pika::execution::thread_schedule_hint(std::int16_t(w)));
+        ex::start_detached(ex::schedule(s) | ex::then([=] {
+            auto& t = (*g_tasks)[id];
+            t.entered.fetch_add(1);
+            started->store(true);
+            long polls = 0;
+            while (!flag->load() && polls < g_poll_limit)
+            {
+                pika::this_thread::yield();
+                ++polls;
+            }
+            if (!flag->load()) gaveup->store(true);
+            t.finished.fetch_add(1);
+            g_done.fetch_add(1);
+        }));
+        while (!started->load()) std::this_thread::sleep_for(std::chrono::microseconds(50));
+        std::vector<std::thread> os;
+        run_on(0, os, [=] {
+            if (api(op_suspend_pu, w)) monitor("supported suspend_processing_unit failed");
+            flag->store(true);
+        });
+        rc = wait_until([&] { return g_ctl_running.load() == 0 || gaveup->load(); });
+        if (gaveup->load())
+        {
+            std::string sts;
+            for (int i = 0; i < g_n; ++i) sts += (i ? "," : "") + std::to_string(int(g_wp->get_scheduler()->get_state(std::size_t(i)).load()));
+            monitor("suspend_processing_unit(" + std::to_string(w) + ") did not return although the only task of that worker yielded " +
+                std::to_string(g_poll_limit) + " times (a yielding task keeps its worker from suspending and is not moved away); PU states " + sts);
+            for (auto& t : os) t.detach();
+            return 1;
+        }
+        for (auto& t : os)
+            if (rc == 0) t.join();
+            else t.detach();
+        if (rc != 0) break;
+        rc = wait_until(all_done);
+        if (rc != 0) break;
+        if (api(op_resume_pu, w)) monitor("resume_processing_unit failed");
+    }
+    if (rc != 0) return rc;
+    if (active() != g_n) monitor("after resuming every PU only " + std::to_string(active()) + " are active");
+    return wait_until(all_done);
+}
+
 static int prog_race(rng& r, int size)
 {
     int keep = int(r.below(std::uint32_t(g_n)));
@@ -673,6 +735,7 @@ int main(int argc, char** argv)
     else if (prog == "lowprio") rc = prog_lowprio(r);
     else if (prog == "race") rc = prog_race(r, size);
     else if (prog == "strand") rc = prog_strand(r, size);
+    else if (prog == "yieldpoll") rc = prog_yieldpoll(r, size);
     else rc = prog_refuse(r, size, elastic, stealing);
 
     if (rc == 0)
